@@ -221,6 +221,101 @@ func TestCheck(t *testing.T) {
 		}
 	}
 
+	// connection-cut sweep: the connection is lost after every prefix of the first (or second) fetch response;
+	// the Reader must continue on a new connection and deliver exactly the stored records, each once
+	s.Begin("reader-connection-cut-at-every-byte")
+	for _, l := range ls {
+		if l.name != "v2-none-full,full,full" && l.name != "v2-gzip-full,full,full" && l.name != "v1-none-full,full,full" && l.name != "v0-none-full,full,full" && l.name != "v1-gzip-wrappers" && l.name != "v2-none-full,hole-tail,full" {
+			continue
+		}
+		for _, nth := range []int{0, 1} {
+			// length of the nth fetch response: measured once on a fault-free run
+			l, nth := l, nth
+			fv := int16(10)
+			if l.batches[0].Format < 2 {
+				fv = 2
+			}
+			shape := fk.FetchShape{}
+			if nth == 1 {
+				shape = fk.FetchShape{MaxBatches: 1} // several fetches: the cut hits the second one
+			}
+			respLen := 0
+			bub.Run(t, 0, func() {
+				c := mkCluster(l, fv)
+				c.SetFetchShape(shape)
+				r := newReader(c, 1<<20, 2)
+				r.SetOffset(0)
+				for i := 0; i < len(expected(c, 0, true)); i++ {
+					ctx, cancel := context.WithTimeout(context.Background(), 4*time.Second)
+					_, err := r.ReadMessage(ctx)
+					cancel()
+					if err != nil {
+						break
+					}
+				}
+				r.Close()
+				c.Lock()
+				n := 0
+				for _, e := range c.Journal {
+					if e.Key == protocol.Fetch {
+						if n == nth {
+							respLen = e.RespBytes
+						}
+						n++
+					}
+				}
+				c.Unlock()
+			})
+			step := 1
+			if !thorough && l.name != "v2-none-full,full,full" {
+				step = 3
+			}
+			for k := 0; k < respLen; k += step {
+				k := k
+				id := fmt.Sprintf("%s fetch#%d cut at %d/%d", l.name, nth, k, respLen)
+				s.Case(id, id, func() (string, *seqx.Viol) {
+					var v *seqx.Viol
+					br := bub.Run(t, 0, func() {
+						c := mkCluster(l, fv)
+						c.SetFetchShape(shape)
+						seen := 0
+						c.Script = func(e *fk.Entry) string {
+							if e.Key == protocol.Fetch {
+								seen++
+								if seen == nth+1 {
+									return fmt.Sprintf("cut:%d", k)
+								}
+							}
+							return ""
+						}
+						want := expected(c, 0, true)
+						var got []string
+						r := newReader(c, 1<<20, 2)
+						r.SetOffset(0)
+						for i := 0; i <= len(want); i++ {
+							ctx, cancel := context.WithTimeout(context.Background(), 6*time.Second)
+							m, err := r.ReadMessage(ctx)
+							cancel()
+							if err != nil {
+								if !errors.Is(err, context.DeadlineExceeded) {
+									got = append(got, "error:"+hx.ErrString(err))
+								}
+								break
+							}
+							got = append(got, fmtMsg(m))
+						}
+						r.Close()
+						v = compare("reader-connection-cut", got, want)
+					})
+					if br.Panic != "" {
+						return "panic", &seqx.Viol{Sig: "panic", Msg: br.Panic}
+					}
+					return l.name, v
+				})
+			}
+		}
+	}
+
 	// truncation sweep: the response holds one whole batch followed by the first k bytes of the next, for every k
 	s.Begin("truncated-tail-at-every-byte")
 	for _, l := range ls {
